@@ -39,7 +39,12 @@ Inductive proc :=
 | PApply (e:evalr) (sp:span) (argv:list value)
 | PFormat (v:value) (format_io:bool) | PDeep (v:value) | PKey (v:value) | PDoIO (v:value).
 
-Inductive worldop := WRead | WPrint (s:list N) | WOpen (sp:span) (path:list N) (m:Files.mode) | WFile (sp:span) (hd:positive) (o:FilesTotal.xop).
+Inductive worldop := WRead | WPrint (s:list N) | WOpen (sp:span) (path:list N) (m:Files.mode) | WFile (sp:span) (hd:positive) (o:FilesTotal.xop)
+| WFind (sp:span) (lits:list Z)              (* ㅂ with literal words: search the directory tree for the module file *)
+| WLoad (sp:span) (path:list N)              (* the module registered for that file, or the file's text *)
+| WRegister (path:list N) (t:positive).      (* enter a module (a delayed expression) in the registry *)
+(* the requests that evaluation itself may make (C07: "reading module files for ㅂ aside") *)
+Definition module_op (o:worldop) : bool := match o with WFind _ _ | WLoad _ _ | WRegister _ _ => true | _ => false end.
 
 Inductive Comp (A:Type) : Type :=
 | Ret (a:A) | Raise (e:error)
